@@ -95,6 +95,8 @@ pub fn replay(j: &J) -> i32 {
                 c02::ladder_case(&ctx, j.get("k").and_then(|k| k.as_i64()).unwrap_or(0) as usize, &mut rep)
             } else if j.get("kind").and_then(|k| k.as_str()) == Some("pairs") {
                 c02::pairs_case(&ctx, j.get("k").and_then(|k| k.as_i64()).unwrap_or(0) as usize, &mut rep)
+            } else if j.get("kind").and_then(|k| k.as_str()) == Some("extreme") {
+                c02::extreme_case(&ctx, j.get("k").and_then(|k| k.as_i64()).unwrap_or(0) as usize, &mut rep)
             } else {
                 c02::case(&ctx, shard, index, &mut rep)
             }
